@@ -128,15 +128,28 @@ impl ConclusionIndex {
 
     /// Extract field name from goal pattern
     fn extract_field_from_goal<'a>(&self, goal_pattern: &'a str) -> &'a str {
-        // Handle comparison operators
-        for op in &["==", "!=", ">=", "<=", ">", "<", " contains ", " matches "] {
-            if let Some(pos) = goal_pattern.find(op) {
-                return goal_pattern[..pos].trim();
+        // A negated goal ("NOT X == true", "!X") is about the same field as the positive goal
+        let mut pattern = goal_pattern.trim();
+        loop {
+            if let Some(rest) = pattern.strip_prefix("NOT ") {
+                pattern = rest.trim_start();
+            } else if let Some(rest) = pattern.strip_prefix('!') {
+                pattern = rest.trim_start();
+            } else {
+                break;
             }
         }
 
-        // No operator found, return whole pattern
-        goal_pattern.trim()
+        // The field ends at the leftmost comparison operator; operator text further right
+        // (e.g. inside a string literal) belongs to the value
+        let mut end = pattern.len();
+        for op in &["==", "!=", ">=", "<=", ">", "<", " contains ", " matches "] {
+            if let Some(pos) = pattern.find(op) {
+                end = end.min(pos);
+            }
+        }
+
+        pattern[..end].trim()
     }
 
     /// Extract all conclusions (facts derived) from a rule
